@@ -114,10 +114,11 @@ def encode : List (Bytes × Bytes) → Bytes
 def splitUserPass (s : Bytes) : Bytes × Bytes :=
   if s.length ≤ 255 then (s, [0]) else (s.take 255, s.drop 255)
 
-/-- what `authRFC1929` reassembles: `uname`, plus `passwd` unless it is exactly one NUL byte;
+/-- what `authRFC1929` reassembles (`plen` is the length byte read from the wire):
+    `argStr := uname; if !(plen == 1 && passwd[0] == 0x00) { argStr += passwd }`;
     `none` stands for the Go runtime panic of `passwd[0]` on an empty slice -/
-def joinUserPass (uname passwd : Bytes) : Option Bytes :=
-  if passwd.length = 1 then
+def joinUserPass (uname passwd : Bytes) (plen : UInt8) : Option Bytes :=
+  if plen = 1 then
     match passwd[0]? with
     | none => none
     | some b => if b = 0 then some uname else some (uname ++ passwd)
@@ -331,13 +332,7 @@ def authRFC1929 (k : Args → Prog) : Prog :=
   .read (sendErrResp .eof) fun plen =>
   if plen < 1 then sendErrResp .proto else
   readBytes plen.toNat (sendErrResp .eof) fun passwd =>
-  -- `if !(plen == 1 && passwd[0] == 0x00) { argStr += string(passwd) }`
-  let argStr : Option Bytes :=
-    if plen = 1 then
-      match passwd[0]? with
-      | none => none
-      | some b => if b = 0 then some uname else some (uname ++ passwd)
-    else some (uname ++ passwd)
+  let argStr : Option Bytes := joinUserPass uname passwd plen
   match argStr with
   | none => .done .panic
   | some s =>
@@ -389,5 +384,37 @@ def specRun (stream : Bytes) (eof : Bool) : Result := spec handshake stream eof
 
 /-- offsets at which the server expects the client to pause -/
 def flushOffsets (stream : Bytes) (eof : Bool) : List Nat := flushPoints handshake stream eof
+
+/-! ## what a conforming client sends (RFC 1928 / RFC 1929) -/
+
+inductive Addr
+  | v4 (a b c d : UInt8)
+  | domain (name : Bytes)
+  | v6 (raw : Bytes)
+deriving DecidableEq, Repr
+
+def Addr.Valid : Addr → Prop
+  | .v4 _ _ _ _ => True
+  | .domain n => 1 ≤ n.length ∧ n.length ≤ 255
+  | .v6 raw => raw.length = 16
+
+def Addr.wire : Addr → Bytes
+  | .v4 a b c d => [cAtypIPv4, a, b, c, d]
+  | .domain n => [cAtypDomainName, UInt8.ofNat n.length] ++ n
+  | .v6 raw => cAtypIPv6 :: raw
+
+/-- the host part of `Request.Target` -/
+def Addr.host : Addr → Bytes
+  | .v4 a b c d => ipv4String a b c d
+  | .domain n => n
+  | .v6 raw => [LBR] ++ ipString16 raw ++ [RBR]
+
+def msgMethods (methods : Bytes) : Bytes := [cVersion, UInt8.ofNat methods.length] ++ methods
+
+def msgAuth (uname passwd : Bytes) : Bytes :=
+  [cAuthVer, UInt8.ofNat uname.length] ++ uname ++ [UInt8.ofNat passwd.length] ++ passwd
+
+def msgConnect (a : Addr) (port : Nat) : Bytes :=
+  [cVersion, cCmdConnect, cRsv] ++ a.wire ++ [UInt8.ofNat (port / 256), UInt8.ofNat (port % 256)]
 
 end O4.Socks5
